@@ -153,8 +153,10 @@ pub fn noise_strategy() -> impl Strategy<Value = JaxNoise> {
         0u8..4,
         any::<bool>(),
         any::<bool>(),
+        any::<bool>(),
+        any::<bool>(),
     )
-        .prop_map(|(gene_header, extra_tags, typedefs, comments, extra_cols, explicit_false)| JaxNoise {
+        .prop_map(|(gene_header, extra_tags, typedefs, comments, extra_cols, explicit_false, isa_modifier, blank_rows)| JaxNoise {
             gene_header,
             extra_tags,
             typedefs,
@@ -163,6 +165,8 @@ pub fn noise_strategy() -> impl Strategy<Value = JaxNoise> {
             comments,
             extra_cols,
             explicit_false,
+            isa_modifier,
+            blank_rows,
         })
 }
 
